@@ -80,7 +80,7 @@ func (c *c07) build() {
 	mv.Blocks[2].Txs[0] = prop("V0", 1, 1, 1, `{"maxValidatorCnt":"2","minValidatorStake":"9000000000000000000"}`)
 	mv.Blocks = append(mv.Blocks, blk(stk("U1", "V0", "1R")), blk())
 	c.base["g3mv"] = mv
-	c.slots["g3mv"] = historySlots(mv, nil, false)
+	c.slots["g3mv"] = historySlots(mv, c07Menu(), false)
 	c.base["g3s"] = smallStakeHistory(genesis3s())
 	c.slots["g3s"] = historySlots(c.base["g3s"], nil, false)
 	c.base["g3pad"] = paddedHistory(genesis3())
@@ -133,6 +133,22 @@ func (c *c07) Prepare(tier string, seed int64) error {
 	for _, r := range subsets(9, 2) {
 		if len(r) > 0 {
 			c.cases = append(c.cases, c07Case{Variant: "g3mv", Restarts: r, Lv: len(r)})
+		}
+	}
+	{
+		// g3mv with every single appended deviation x one restart at every boundary (a validator whose own stake
+		// falls below the raised minimum while delegations keep its total above it, etc.)
+		ss := c.slots["g3mv"]
+		sets, _ := enumDevs(ss.sizes(), 1, 1, func(s, ch int) bool { return ss.slots[s].kind == slotAppend })
+		for _, d := range sets {
+			if len(d) == 0 {
+				continue
+			}
+			for _, r := range subsets(9, 1) {
+				if len(r) == 1 && r[0] >= 5 {
+					c.cases = append(c.cases, c07Case{Variant: "g3mv", Devs: d, Restarts: r, Lv: 1})
+				}
+			}
 		}
 	}
 	for _, r := range subsets(8, 2) {
